@@ -18,5 +18,29 @@ DSim   == {[seq |-> 5, unused |-> <<3, 4>>, recent |-> <<2, 5>>], [seq |-> 3, un
            [seq |-> 6, unused |-> <<>>, recent |-> <<6>>], [seq |-> 4, unused |-> <<3>>, recent |-> <<1, 2, 4>>]}
 DOne   == {[seq |-> 4, unused |-> <<3>>, recent |-> <<1, 4>>]}
 DFour  == {[seq |-> 4, unused |-> <<3>>, recent |-> <<1, 4>>], [seq |-> 3, unused |-> <<>>, recent |-> <<2, 3>>]}
+(* Simulation.  TLC -simulate picks uniformly among SUCCESSOR STATES, so under Next the ~100 argument choices of an
+   arrival swamp Tick / Abandon (measured: Tick 0.4% of steps).  SimNext draws the arguments with RandomElement so that
+   every action KIND yields one successor: two plain arrivals, one arrival aimed at the current gap or a skipped sequence
+   (closes gaps, late arrivals), one range, one document event, Tick, and Abandon one time in three.  With LegalOnly the
+   arguments are drawn among the declarations that keep the feed legal. *)
+RE(S) == RandomElement(S)
+SingleId(k, q) == [k |-> k, a |-> q, b |-> q]
+KindsFor(q) == IF LegalOnly THEN {k \in Kinds : Compat(owner[q], SingleId(k, q))} ELSE Kinds
+SimSeqs == {q \in Win : cnt[q] < MaxDup /\ KindsFor(q) # {}}
+GapSeqs == (skipped \cup {next}) \cap SimSeqs
+SimRanges == IF LegalOnly THEN {r \in Ranges : \A q \in r[1]..r[2] : Compat(owner[q], [k |-> "range", a |-> r[1], b |-> r[2]])} ELSE Ranges
+SimDocs == {d \in DocEvs : cnt[d.seq] < MaxDup}
+SimArrive(S) == S # {} /\ \E q \in {RE(S)} : \E k \in {RE(KindsFor(q))}, o \in {RE(Olds)} : Arrive([seq |-> q, end |-> 0, kind |-> k, old |-> o])
+SimNext ==
+  /\ Len(hist) < MaxSteps
+  /\ \/ SimArrive(SimSeqs)
+     \/ SimArrive(SimSeqs)
+     \/ SimArrive(GapSeqs)
+     \/ SimRanges # {} /\ rcnt < MaxRangeArr /\ \E r \in {RE(SimRanges)}, o \in {RE(Olds)} : ArriveRange([seq |-> r[1], end |-> r[2], kind |-> "unused", old |-> o])
+     \/ SimDocs # {} /\ \E d \in {RE(SimDocs)}, o \in {RE(Olds)} : Doc([seq |-> d.seq, unused |-> d.unused, recent |-> d.recent, old |-> o])
+     \/ DOMAIN pending # {} /\ Tick
+     \/ AllowAbandon /\ skipped # {} /\ RE(1..3) = 1 /\ Abandon
+  /\ LegalOnly => legal'
+SimSpec == Init /\ [][SimNext]_vars
 BehaviourExport == (Len(hist) = MaxSteps) => PrintT(<<"BEH", ToJson([mn |-> maxNum, w |-> W, steps |-> hist])>>)
 =============================================================================
